@@ -78,6 +78,16 @@ def main():
     else:
         proof_ok = True
 
+    # thorough tier: the toolchain's independent re-checker replays the compiled proofs in the kernel
+    if tier == "thorough" and proof_ok and not args.skip_build:
+        try:
+            rc, out = common.leanchecker([t for t in mod.LEAN_PROOF_TARGETS if t.startswith("Pyro")])
+            ctx.oblige("leanchecker " + " ".join(mod.LEAN_PROOF_TARGETS), rc == 0, out[-300:])
+            if rc != 0:
+                broken.append("leanchecker rejects the compiled proofs: " + out[-300:])
+        except common.subprocess.TimeoutExpired:
+            ctx.notes.append("leanchecker timed out (not counted)")
+
     # ---------------- B: audit ----------------------------------------------------------
     hits = common.audit_sources(mod.AUDIT_FILES)
     ctx.oblige("audit:sources", not hits, "; ".join(hits[:5]))
